@@ -43,6 +43,32 @@ class Check(MacroCheck):
     runtime = Runtime()
     facts_of_interest = r'(call delegate|arm CallDefaultImpl|call unimock|target=delegator)'
 
+    def explore_into(self, rep, tier, seed, ir=True, merge=False):
+        super().explore_into(rep, tier, seed, ir=ir, merge=merge)
+        self.fmt_cases(rep)
+
+    def fmt_cases(self, rep):
+        """a default body that formats `self` (a mirrored `Display` / `Debug` supertrait) reaches the same mock: `{}` with its format
+        options goes to DisplayMock::fmt, `{:?}` / `{:#?}` to DebugMock::fmt — compared with a plain struct (harness/src/bin/mirrors2.rs)"""
+        import os, subprocess
+        from .. import engine
+        ok, log = engine.build_harness(['mirrors2'])
+        if not ok:
+            path = engine.write_replay(self.prop, 'build', log + '\n', ["harness/src/bin/mirrors2.rs no longer builds against /repo"])
+            rep.violation(path, "mirrors2 harness does not build against /repo", no_input=True)
+            return
+        p = subprocess.run([os.path.join(engine.HARNESS, 'target', 'debug', 'mirrors2')], capture_output=True, text=True, timeout=300)
+        rows = [l.split('\t') for l in p.stdout.split('\n') if l.startswith('case fmt.')]
+        for f in rows:
+            m, pl = f[1][len('mock='):], f[2][len('plain='):]
+            if m != pl:
+                path = engine.write_replay(self.prop, 'spec', '\t'.join(f) + '\n', [f"property C15 violated by the real code: the default body of a provided method formats self; over the mock it yields `{m[:200]}`, over a plain struct with the same Display / Debug `{pl[:200]}`", "replay: /verif/harness/target/debug/mirrors2 | grep fmt."])
+                rep.violation(path, f"{f[0][5:]}: default body formatting self: mock `{m[:160]}` vs plain `{pl[:160]}`")
+        if p.returncode != 0 or not rows:
+            path = engine.write_replay(self.prop, 'toolerror', p.stderr[-1500:], ["mirrors2 harness crashed or printed no fmt cases"])
+            rep.violation(path, "mirrors2 harness crashed", no_input=True)
+        rep.coverage['fmt_cases'] = len(rows)
+
     def rule(self):
         return ("same shape family as C05 restricted in interest to provided methods and the DefaultImplDelegator forwarding impl "
                 "(delegator constructor per receiver kind, arguments in order, await placement); compiled behavioural cases for all "
